@@ -29,8 +29,9 @@ def parseEv (s : String) : Option Ev :=
   | _ => none
 
 /-- depth-first search over linearizations that respect real-time order -/
-partial def search (evs : Array Ev) (done : List Nat) (m : Ideal) (budget : Nat) : Option Bool × Nat :=
-  if done.length == evs.size then (some true, budget) else
+partial def search (evs : Array Ev) (fin : List (Nat × Nat)) (done : List Nat) (m : Ideal) (budget : Nat) : Option Bool × Nat :=
+  -- the linearization must also explain what is still observable afterwards: every resident entry is the ideal value
+  if done.length == evs.size then (some (fin.all (fun kv => m.get kv.1 == some kv.2)), budget) else
   if budget == 0 then (none, 0) else
   let pendingIdx := (List.range evs.size).filter (fun i => !done.contains i)
   -- candidates: pending events not preceded (in real time) by another pending event
@@ -41,7 +42,7 @@ partial def search (evs : Array Ev) (done : List Nat) (m : Ideal) (budget : Nat)
     | i :: rest =>
       let e := evs[i]!
       if accepts m e.op e.out then
-        match search evs (i :: done) (m.step e.op) (budget - 1) with
+        match search evs fin (i :: done) (m.step e.op) (budget - 1) with
         | (some true, b) => (some true, b)
         | (none, b) => (none, b)
         | (some false, b) => go rest b
@@ -51,14 +52,29 @@ partial def search (evs : Array Ev) (done : List Nat) (m : Ideal) (budget : Nat)
 def field (t name : String) : Option String :=
   if t.startsWith (name ++ "=") then some (t.drop (name.length + 1)).toString else none
 
+def parseResident (s : String) : Option (List (Nat × Nat)) :=
+  if s == "-" then some [] else
+  (s.splitOn ",").mapM (fun kv => match kv.splitOn ":" with
+    | [k, v] => do pure ((← k.toNat?), (← v.toNat?))
+    | _ => none)
+
 def step (_ : Unit) (ts : List String) : Unit × String :=
   let out := (ts.dropWhile (· ≠ "=>")).drop 1
   match out with
-  | evs :: "|" :: sz :: cp :: _ =>
+  | evs :: "|" :: sz :: cp :: rest =>
+    let fin? : Option (Option (List (Nat × Nat))) := match rest with
+      | r :: _ => (field r "resident").map parseResident
+      | [] => none
     match ((evs.splitOn ";").filter (· ≠ "")).mapM parseEv, (field sz "size").bind String.toInt?, (field cp "cap").bind String.toInt? with
     | some es, some size, some cap =>
       if size > cap then ((), s!"reject size-over-capacity {size}>{cap}") else
-      match search es.toArray [] [] 2000000 with
+      match fin? with
+      | some none => ((), "reject bad-history")
+      | _ =>
+      let fin := (fin?.bind id).getD []
+      -- size statistic exact: it counts exactly the entries a caller can still observe
+      if fin?.isSome && size != (fin.length : Int) then ((), s!"reject size-statistic-differs size={size} resident={fin.length}") else
+      match search es.toArray fin [] [] 2000000 with
       | (some true, _) => ((), "ok")
       | (some false, _) => ((), "reject not-linearizable")
       | (none, _) => ((), "ok budget-exhausted")
